@@ -64,8 +64,11 @@ def run(tier, lab):
         compare(ck, sc, res, events)
         if any(sc["delivered"][c] for c in "abc") and any(len(sc["delivered"][c]) < len(events) for c in "abc"):
             nontrivial += 1
+    # the same property on the whole server: real services emit the events, the real file channel is one of the channels
+    import wholeserver, random
+    nsys = wholeserver.run(ck, tier, lab, random.Random(lib.seed()))
     ck.cov.update({
-        "traces_validated_against_impl": len(scs), "configurations_replayed": len(scs),
+        "traces_validated_against_impl": len(scs) + nsys, "configurations_replayed": len(scs),
         "events_per_configuration": len(events), "evaluations": len(scs) * len(events),
         "distinct_nontrivial": nontrivial, "exhaustive": True,
         "rule": "configuration = filter list; every configuration receives the full 8x8 (category, service) value alphabet; "
@@ -75,12 +78,26 @@ def run(tier, lab):
     ck.sample({"filters": [describe(f) for f in scs[-1]["filters"]], "delivered": scs[-1]["delivered"]})
     ck.assumptions += ["a missing or non-string category/service field is matched as the empty string",
                        "regular expressions are drawn from literal / ^prefix / ^full$ / alternation / empty; "
-                       "Bus!Match is the meaning given to them"]
+                       "Bus!Match is the meaning given to them",
+                       "whole-server part (Honeytrap.tla): real http/telnet (shared port), ftp, redis and a stub that panics on demand; clients "
+                       "connect one at a time; events are identified across capture channels by object identity and in the file channel's log "
+                       "by category, source, token and protocol field"]
     return ck.finish()
 
 
 def replay(lab, path):
     rp = json.load(open(path))["replay"]
+    if rp.get("system"):
+        import wholeserver
+        ck = lib.Check(PROP, "quick", "model_checking")
+        ck.findings.entries = []
+        wholeserver.replay(ck, lab, rp)
+        for sig, p, what in ck.violations:
+            print(sig, what[:400])
+        if ck.violations:
+            print("VIOLATION property=C06 replay=%s" % path)
+            return 1
+        return 0
     r1 = lib.tlc("MC_Bus", timeout=300, constants={"NFilters": "0", "Sim": "FALSE"})
     events = next(s["events"] for s in r1.scn if s["events"])
     evf = os.path.join(lib.scratch(), "c06-events.json")
@@ -95,3 +112,35 @@ def replay(lab, path):
         print("VIOLATION property=C06 replay=%s" % path)
         return 1
     return 0
+
+
+def selftest(lab):
+    """binding demonstration for Honeytrap_Trace: the whole-server trace recorded from the real server is accepted; a wrong
+    delivery position, a wrong category, a missing token and a connection routed to another service are rejected"""
+    import wholeserver
+    sc = {"id": 0, "filters": [wholeserver.CATCH_ALL, {"channels": ["a", "f"], "cats": [{"kind": "lit", "s": ["t", "p"]}], "svcs": []},
+                               {"channels": ["b"], "cats": [], "svcs": [{"kind": "full", "s": []}]}]}
+    res = lib.run_sharded(lab, "sys", [sc], shards=1)[0]
+    clean, trace, token = wholeserver.validate(sc, res)
+
+    def check(mutate):
+        r2 = json.loads(json.dumps(res))
+        mutate(r2["lines"])
+        tr, _, _ = wholeserver.validate(sc, r2)
+        return tr is not None and not tr.ok
+    first_a = lambda ls: next(ln for ln in ls if ln["k"] == "event" and ln["pos"]["a"])
+
+    def m_pos(ls):
+        first_a(ls)["pos"]["a"] = []
+
+    def m_cat(ls):
+        next(ln for ln in ls if ln["k"] == "event" and "".join(ln["cat"]) == "ftp")["cat"] = list("telnet")
+
+    def m_tok(ls):
+        [ln for ln in ls if ln["k"] == "event"][3]["token"] = ""
+
+    def m_route(ls):
+        next(ln for ln in ls if ln["k"] == "accept" and ln["svc"] == "telnet")["svc"] = "http"
+    out = {"position": check(m_pos), "category": check(m_cat), "token": check(m_tok), "routing": check(m_route)}
+    print("selftest C06 (whole server): clean accepted=%s; corrupted rejected: %s" % (clean is not None and clean.ok, out))
+    return 0 if clean is not None and clean.ok and all(out.values()) else 1
